@@ -57,7 +57,9 @@ func (dn SuDnum) Equal(other any) bool {
 	if d2, ok := other.(SuDnum); ok {
 		return dnum.Equal(dn.Dnum, d2.Dnum)
 	} else if i, ok := SuIntToInt(other); ok {
-		return dnum.Equal(dn.Dnum, dnum.FromInt(int64(i)))
+		// exact, FromInt rounds integers with more than 16 digits
+		n, ok := dn.ToInt64()
+		return ok && n == int64(i)
 	}
 	return false
 }
@@ -69,6 +71,9 @@ func (SuDnum) Type() types.Type {
 func (dn SuDnum) Compare(other Value) int {
 	if cmp := cmp.Compare(ordNum, Order(other)); cmp != 0 {
 		return cmp * 2
+	}
+	if i, ok := SuIntToInt(other); ok {
+		return -cmpIntDnum(int64(i), dn.Dnum)
 	}
 	// now know other is a number and ToDnum won't panic
 	return dnum.Compare(dn.Dnum, ToDnum(other))
